@@ -14,6 +14,26 @@ import (
 // Parser can parse lua statements or expressions
 type Parser struct {
 	scanner Scanner
+	depth   int // current number of nested syntax levels
+}
+
+// Maximum number of nested syntax levels (statements and expressions) in a
+// chunk.  The parser is recursive so there has to be a limit, this one is the
+// same as in the reference implementation (LUAI_MAXCCALLS).
+const maxSyntaxLevels = 200
+
+// enterLevel must be called when starting to parse a construct that can be
+// nested in itself (t is the first token of the construct), and leaveLevel
+// when done.
+func (p *Parser) enterLevel(t *token.Token) {
+	p.depth++
+	if p.depth > maxSyntaxLevels {
+		panic(Error{Got: t, Message: "chunk has too many syntax levels"})
+	}
+}
+
+func (p *Parser) leaveLevel() {
+	p.depth--
 }
 
 type Scanner interface {
@@ -24,11 +44,14 @@ type Scanner interface {
 type Error struct {
 	Got      *token.Token
 	Expected string
+	Message  string // If not empty, what is wrong (then Expected is not used)
 }
 
 func (e Error) Error() string {
 	expected := e.Expected
-	if e.Got.Type == token.INVALID {
+	if e.Message != "" {
+		expected = e.Message
+	} else if e.Got.Type == token.INVALID {
 		expected = "invalid token: " + expected
 	} else if e.Got.Type == token.UNFINISHED {
 		expected = "unexpected <eof>"
@@ -59,7 +82,7 @@ func ParseExp(scanner Scanner) (exp ast.ExpNode, err error) {
 			}
 		}
 	}()
-	parser := &Parser{scanner}
+	parser := &Parser{scanner: scanner}
 	var t *token.Token
 	exp, t = parser.Exp(parser.Scan())
 	expectType(t, token.EOF, "<eof>")
@@ -79,7 +102,7 @@ func ParseChunk(scanner Scanner) (stat ast.BlockStat, err error) {
 			}
 		}
 	}()
-	parser := &Parser{scanner}
+	parser := &Parser{scanner: scanner}
 	var t *token.Token
 	stat, t = parser.Block(parser.Scan())
 	expectType(t, token.EOF, "<eof>")
@@ -97,6 +120,8 @@ func (p *Parser) Scan() *token.Token {
 
 // Stat parses any statement.
 func (p *Parser) Stat(t *token.Token) (ast.Stat, *token.Token) {
+	p.enterLevel(t)
+	defer p.leaveLevel()
 	switch t.Type {
 	case token.SgSemicolon:
 		return ast.NewEmptyStat(t), p.Scan()
@@ -357,6 +382,8 @@ func (p *Parser) Exp(t *token.Token) (ast.ExpNode, *token.Token) {
 // prefix expression or a power operation (right associatively composed). In
 // other words, any expression that doesn't contain a binary operator.
 func (p *Parser) ShortExp(t *token.Token) (ast.ExpNode, *token.Token) {
+	p.enterLevel(t)
+	defer p.leaveLevel()
 	var exp ast.ExpNode
 	switch t.Type {
 	case token.KwNil:
